@@ -175,3 +175,148 @@ Proof.
   destruct chord_tol5_val as [Ht _]. eapply Rle_trans; [exact Hc | exact Ht].
 Qed.
 
+
+(* ------------------------------------------------------------------ directions of two nearby vectors *)
+Lemma near_dirs a b t e : chord2 a b <= t -> Rabs (norm2 b - 1) <= e -> 0 <= e <= 1 / 2 ->
+  2 * t + 2 * (e * e) <= 1 / 4 ->
+  0 < norm2 a /\ 0 < norm2 b /\ chord2 (normalize a) (normalize b) <= 2 * (2 * t + 2 * (e * e)).
+Proof.
+  intros Hab Hb He Hsmall.
+  assert (0 < norm2 b) as Hnb by (apply Rabs_le_inv in Hb; lra).
+  pose proof (normalize_is_unit b Hnb) as Hub.
+  pose proof (norm_near_one b e He Hb) as Hbb.
+  pose proof (chord2_triangle2 a b (normalize b)) as Htri.
+  pose proof (chord2_nonneg a b) as Hab0. pose proof (chord2_nonneg b (normalize b)) as Hbb0.
+  set (D := 2 * t + 2 * (e * e)) in *.
+  assert (0 <= D) as HD0 by (unfold D; nra).
+  assert (chord2 a (normalize b) <= sqrt D * sqrt D) as Hd by (rewrite sqrt_sqrt by exact HD0; unfold D; lra).
+  assert (0 <= sqrt D <= 1 / 2) as Hsd.
+  { split; [apply sqrt_pos|]. rewrite <- (sqrt_square (1 / 2)) by lra. apply sqrt_le_1_alt. lra. }
+  destruct (direction_close a (normalize b) (sqrt D) Hub Hsd Hd) as [Hna Hc].
+  rewrite sqrt_sqrt in Hc by exact HD0. split; [exact Hna|]. split; [exact Hnb|exact Hc].
+Qed.
+
+Lemma euler_norm2_bound r w :
+  Rabs (norm2 (euler_lin r w) - norm2 w) <= Rabs (eps_of r) * norm2 w.
+Proof.
+  rewrite euler_norm2. fold (eps_of r).
+  replace (norm2 w + eps_of r * (norm2 w - (vx (Rz (- r_phi r) w))²) - norm2 w)
+    with (eps_of r * (norm2 w - (vx (Rz (- r_phi r) w))²)) by ring.
+  rewrite Rabs_mult. apply Rmult_le_compat_l; [apply Rabs_pos|].
+  rewrite <- (norm2_Rz (- r_phi r) w). set (t := Rz (- r_phi r) w).
+  unfold norm2, dot, Rsqr. apply Rabs_le.
+  pose proof (Rle_0_sqr (vx t)); pose proof (Rle_0_sqr (vy t)); pose proof (Rle_0_sqr (vz t)).
+  unfold Rsqr in *. lra.
+Qed.
+
+(* ------------------------------------------------------------------ chained conversions, returned angles *)
+Definition chain_tol2 : R := 2 / 1000000000000000.     (* 2e-15 *)
+
+Lemma rows_chain_mat_tight b :
+  frob2 (msub (euler_mat (euler_row b 5)) (mmul (euler_mat (euler_row b 1)) (euler_mat (euler_row b 4)))) <= chain_tol2
+  /\ frob2 (msub (euler_mat (euler_row b 6)) (mmul (euler_mat (euler_row b 3)) (euler_mat (euler_row b 2)))) <= chain_tol2.
+Proof.
+  unfold chain_tol2. destruct b; split; expand; interval.
+Qed.
+
+(* direct (sd) versus first s1 then s2, when the matrices agree to chain_tol2 *)
+Lemma chain_angles b sd s1 s2 a d : valid_sel sd -> valid_sel s1 -> valid_sel s2 ->
+  frob2 (msub (euler_mat (euler_row b sd)) (mmul (euler_mat (euler_row b s2)) (euler_mat (euler_row b s1)))) <= chain_tol2 ->
+  let p1 := euler_R (euler_row b s1) a d in
+  let p2 := euler_R (euler_row b s2) (fst p1) (snd p1) in
+  let pd := euler_R (euler_row b sd) a d in
+  within_sky tol5 (unit_deg (fst pd) (snd pd)) (unit_deg (fst p2) (snd p2)).
+Proof.
+  intros Hd H1 H2 Hm p1 p2 pd. unfold within_sky.
+  pose proof (euler_extract _ a d (rows_nonzero b s1 a d H1)) as E1. fold p1 in E1. unfold represents_deg in E1.
+  pose proof (euler_extract _ (fst p1) (snd p1) (rows_nonzero b s2 _ _ H2)) as E2. fold p2 in E2. unfold represents_deg in E2.
+  pose proof (euler_extract _ a d (rows_nonzero b sd a d Hd)) as Ed. fold pd in Ed. unfold represents_deg in Ed.
+  rewrite E2, Ed. unfold euler_vec. rewrite E1. unfold euler_vec.
+  set (u := unit_deg a d). assert (is_unit u) as Hu by apply unit_deg_unit.
+  set (F1 := euler_lin (euler_row b s1)). set (F2 := euler_lin (euler_row b s2)). set (Fd := euler_lin (euler_row b sd)).
+  (* the intermediate vector and its norm *)
+  pose proof (euler_norm2_bound (euler_row b s1) u) as N1. rewrite Hu, Rmult_1_r in N1. fold F1 in N1.
+  pose proof (rows_orthonormal b s1 H1) as O1. pose proof (rows_orthonormal b s2 H2) as O2. unfold eps_max in *.
+  assert (Rabs (norm2 (F1 u) - 1) <= 1 / 10000000000) as N1' by lra.
+  pose proof N1' as N1b. apply Rabs_le_inv in N1b.
+  assert (0 < norm2 (F1 u)) as P1 by lra.
+  pose proof (euler_norm2_bound (euler_row b s2) (F1 u)) as N2. fold F2 in N2.
+  assert (Rabs (norm2 (F2 (F1 u)) - 1) <= 3 / 10000000000) as N2'.
+  { apply Rabs_le. apply Rabs_le_inv in N2. pose proof (Rabs_pos (eps_of (euler_row b s2))) as Q.
+    set (E := Rabs (eps_of (euler_row b s2))) in *. set (n1 := norm2 (F1 u)) in *. split; nra. }
+  (* normalisation of the intermediate point does not matter *)
+  replace (F2 (normalize (F1 u))) with (scale (/ norm (F1 u)) (F2 (F1 u)))
+    by (unfold normalize, F2; rewrite euler_lin_scale; reflexivity).
+  assert (0 < norm2 (F2 (F1 u))) as P2 by (apply Rabs_le_inv in N2'; lra).
+  rewrite (normalize_scale _ _ (Rinv_0_lt_compat _ (norm_pos _ P1)) P2).
+  (* direct vs chained vectors *)
+  assert (chord2 (Fd u) (F2 (F1 u)) <= chain_tol2) as Hc.
+  { unfold Fd, F2, F1. rewrite !euler_lin_mat, <- mapply_mmul. apply mat_close; assumption. }
+  assert (0 <= 3 / 10000000000 <= 1 / 2) as He by lra.
+  destruct (near_dirs (Fd u) (F2 (F1 u)) chain_tol2 (3 / 10000000000) Hc N2' He) as [_ [_ Hfin]];
+    [unfold chain_tol2; lra|].
+  eapply Rle_trans; [exact Hfin|]. unfold chain_tol2, chord_of, tol5, D2R, Rsqr. interval.
+Qed.
+
+(* ecliptic -> galactic directly versus via equatorial; galactic -> ecliptic directly versus via equatorial *)
+Lemma rows_chain_angles b a d :
+  (let p1 := euler_R (euler_row b 4) a d in
+   let p2 := euler_R (euler_row b 1) (fst p1) (snd p1) in
+   let pd := euler_R (euler_row b 5) a d in
+   within_sky tol5 (unit_deg (fst pd) (snd pd)) (unit_deg (fst p2) (snd p2)))
+  /\
+  (let p1 := euler_R (euler_row b 2) a d in
+   let p2 := euler_R (euler_row b 3) (fst p1) (snd p1) in
+   let pd := euler_R (euler_row b 6) a d in
+   within_sky tol5 (unit_deg (fst pd) (snd pd)) (unit_deg (fst p2) (snd p2))).
+Proof.
+  destruct (rows_chain_mat_tight b) as [M5 M6].
+  split; [apply (chain_angles b 5 4 1) | apply (chain_angles b 6 2 3)]; unfold valid_sel; try lia; assumption.
+Qed.
+
+(* ------------------------------------------------------------------ rotate (zxz Euler angles, degrees) *)
+Lemma rotate_eps phi theta psi : eps_of (rotate_row phi theta psi) = 0.
+Proof. unfold eps_of. rewrite rotate_row_sc. ring. Qed.
+
+Lemma rotate_nonzero phi theta psi ra dec : norm2 (euler_xyz (rotate_row phi theta psi) ra dec) = 1.
+Proof.
+  rewrite <- (norm2_Rz (r_psi (rotate_row phi theta psi))), <- euler_vec_xyz. unfold euler_vec.
+  rewrite euler_norm2. fold (eps_of (rotate_row phi theta psi)). rewrite rotate_eps, (unit_deg_unit ra dec). ring.
+Qed.
+
+Lemma rotate_represents phi theta psi ra dec :
+  let p := rotate_R phi theta psi ra dec in
+  unit_deg (fst p) (snd p) = rotate_vec phi theta psi ra dec.
+Proof.
+  intro p. unfold p. rewrite rotate_R_is.
+  pose proof (euler_gen_extract (rotate_row phi theta psi) ra dec) as H. unfold represents_deg in H.
+  rewrite H by (rewrite rotate_nonzero; lra).
+  apply normalize_unit_id. unfold is_unit, rotate_vec, euler_vec, norm2.
+  rewrite (euler_isometry _ (rotate_row_sc phi theta psi)). apply unit_deg_unit.
+Qed.
+
+Lemma rotate_range phi theta psi ra dec :
+  0 <= fst (rotate_R phi theta psi ra dec) < 360 /\ -90 <= snd (rotate_R phi theta psi ra dec) <= 90.
+Proof. rewrite rotate_R_is. apply euler_gen_range. Qed.
+
+(* separations are preserved exactly *)
+Lemma rotate_isometry phi theta psi ra1 dec1 ra2 dec2 :
+  let p := rotate_R phi theta psi ra1 dec1 in
+  let q := rotate_R phi theta psi ra2 dec2 in
+  dot (unit_deg (fst p) (snd p)) (unit_deg (fst q) (snd q)) = dot (unit_deg ra1 dec1) (unit_deg ra2 dec2).
+Proof.
+  intros p q. unfold p, q. rewrite !rotate_represents. unfold rotate_vec, euler_vec.
+  apply (euler_isometry _ (rotate_row_sc phi theta psi)).
+Qed.
+
+(* rotate(psi, -theta, phi) undoes rotate(phi, theta, psi) exactly (as points of the sphere) *)
+Lemma rotate_inverse phi theta psi ra dec :
+  let p := rotate_R phi theta psi ra dec in
+  let q := rotate_R psi (- theta) phi (fst p) (snd p) in
+  unit_deg (fst q) (snd q) = unit_deg ra dec.
+Proof.
+  intros p q. unfold q. rewrite rotate_represents. unfold rotate_vec, euler_vec.
+  pose proof (rotate_represents phi theta psi ra dec) as Hp. fold p in Hp. cbv zeta in Hp. rewrite Hp.
+  unfold rotate_vec, euler_vec. rewrite <- rotate_row_inv.
+  apply (euler_inverse _ (rotate_row_sc phi theta psi)).
+Qed.
